@@ -318,6 +318,17 @@ Definition subtitles_of (bs : list block) : option (list subtitle) := subtitles_
 Inductive start_cfg := StartNone | StartTCP | StartLabel (l : label).
 Inductive rows_cfg := RowsDefault | RowsMNR | RowsInt (n : Z).
 
+(* the values documented for the stl_reader section (README: program_start_tc "TCP" | "HH:MM:SS:FF", max_row_count
+   "MNR" | integer, disable_fill_line_gap / disable_line_padding true | false), as predicates on the text of a value:
+   a keyword in any letter case; a complete time code - two ASCII digits, a separator, ... eleven characters and nothing
+   after them - whose separators satisfy `sep` *)
+Definition any_case (keyword t : text) : Prop := Forall2 (fun k c => c = k \/ c = k + 32) keyword t.
+Definition ascii_digit (c : Z) : Prop := 48 <= c <= 57.
+Definition complete_time_code (sep : Z -> Prop) (t : text) : Prop :=
+  exists h1 h2 s1 m1 m2 s2 c1 c2 s3 f1 f2,
+    t = [h1; h2; s1; m1; m2; s2; c1; c2; s3; f1; f2] /\
+    Forall ascii_digit [h1; h2; m1; m2; c1; c2; f1; f2] /\ Forall sep [s1; s2; s3].
+
 (* numeric GSI fields are ASCII digits.  A field holding something else is "not a number" (the reader falls back to
    a default) - except that fields padded or decorated with blanks, signs or underscores are left outside this
    specification (None), because number parsers differ on them *)
